@@ -11,6 +11,7 @@ import io
 import itertools
 import json
 import os
+import signal
 import tempfile
 import zlib
 
@@ -215,7 +216,34 @@ def quiet(tmp):
         tempfile.tempdir = old
 
 
+class ImplHang(BaseException):
+    """The implementation did not return within the watchdog delay (the
+    gap-filling loop of MiniShard.close has no bound of its own)."""
+
+
+@contextlib.contextmanager
+def watchdog(seconds=20.0):
+    def handler(signum, frame):
+        raise ImplHang()
+    old = signal.signal(signal.SIGALRM, handler)
+    signal.setitimer(signal.ITIMER_REAL, seconds)
+    try:
+        yield
+    finally:
+        signal.setitimer(signal.ITIMER_REAL, 0)
+        signal.signal(signal.SIGALRM, old)
+
+
 def impl_write(R, ds, ops, strategy, name, info=None):
+    try:
+        with watchdog():
+            return _impl_write(R, ds, ops, strategy, name, info)
+    except ImplHang:
+        R.count("impl:hang")
+        return [["Hang"]], ["Hang"], {}, os.path.join(R.tmp, name)
+
+
+def _impl_write(R, ds, ops, strategy, name, info=None):
     """Real ShardedFileAccessor: store every op (exceptions caught, session
     continues), close explicitly.  Returns (per-op outcomes, close outcome,
     files {name: bytes}, directory)."""
@@ -245,6 +273,15 @@ def impl_write(R, ds, ops, strategy, name, info=None):
 
 
 def impl_fetch(R, d, ds, coords_list, via="url"):
+    try:
+        with watchdog():
+            return _impl_fetch(R, d, ds, coords_list, via)
+    except ImplHang:
+        R.count("impl:hang")
+        return [["Hang"] for _ in coords_list], "ShardedFileAccessor"
+
+
+def _impl_fetch(R, d, ds, coords_list, via="url"):
     """Fetch through a FRESH accessor.  Returns the list of outcomes."""
     import numpy as np
     from neuroglancer_scripts import accessor as acc_mod, sharded_file_accessor as sfa
